@@ -3,15 +3,15 @@ INVARIANT Local
 CHECK_DEADLOCK FALSE
 CONSTANTS
   CHUNK = 500
-  DENSE = 12
-  NSCALE = 6
+  DENSE = 16
+  NSCALE = 8
   EDGEW = 4
   SEDGEW = 2
   POLEW = 32
   EQW = 16
   MERW = 4
-  LESTRIDE = 3
+  LESTRIDE = 1
   SWEEPLAT = 60
-  SWEEPLON = 40
+  SWEEPLON = 50
   NRAND = 0
   NLONS = 1
